@@ -998,11 +998,14 @@ pub(crate) mod rgb9995f {
         // above for more information. The only difference is that denorms can
         // no longer fall through.
 
-        let f = two_powi(exp as i8 - 24) * 65535.0;
+        // The product of a 9-bit mantissa and 65535 * 2^n needs up to 25 bits,
+        // so it has to be computed in f64. In f32, the product is rounded
+        // before 0.5 is added, which is off by one for mant=257 exp=15.
+        let f = (two_powi(exp as i8 - 24) * 65535.0) as f64;
         [
-            (r_mant as f32 * f + 0.5) as u16,
-            (g_mant as f32 * f + 0.5) as u16,
-            (b_mant as f32 * f + 0.5) as u16,
+            (r_mant as f64 * f + 0.5) as u16,
+            (g_mant as f64 * f + 0.5) as u16,
+            (b_mant as f64 * f + 0.5) as u16,
         ]
     }
 
